@@ -1,34 +1,52 @@
 import ScVerif.Base.Line
 import ScVerif.C03.Model
 /-!
-Driver handler for C03.  Messages are integers.
+Driver handler for C03.  Messages are pairs of integers `(l, t)` (two independent fields); a plain integer `k`
+stands for `(k, 0)`.
 
-Request: `run <init> <progs> <updatesOnly> <sched>`
-* init   `-` or `id:val,...`
-* progs  writers separated by `|`, operations by `;` (empty writer `-`): `u/<id>/s<k>` set, `u/<id>/a<k>` add to
-         the old value (absent = 0), `u/<id>/c<e>.<v>` set to v if the current value is e (else no commit), `d/<id>`
-* updatesOnly  one `0`/`1` per subscriber (`-` for none)
+Request: `run <init> <progs> <subs> <sched>`
+* init   `-` or `id:val,...`  (val = `l` or `l.t`)
+* progs  writers separated by `|`, operations by `;` (empty writer `-`): `u/<id>/s<k>` set to (k,0), `u/<id>/a<k>` add k
+         to the first field (absent = 0), `u/<id>/c<e>.<v>` set to (v,0) if the current value is (e,0) (else no commit),
+         `u/<id>/w<l>.<t>` write the pair, `d/<id>`
+* subs   `-` or comma separated `<updatesOnly 0|1><lossy 0|1><mask n|l|t|b>` per subscriber
 * sched  `-` or comma separated steps: `c<t>` commit of writer t, `n<k>` snapshot / `d<k>` next delivery of the
-         k-th publication in flight (commit order), `s<i>` subscribe of subscriber i
+         k-th publication in flight (commit order), `s<i>` subscribe, `x<i>` cancel, `r<i>` consumer i takes one
+         event, `R` every consumer drains its stage
 
-Answer: `store=…|S0=<registered>:<view>:<events>|…|pubs=<in flight>|lock=<0|1>|ord=<0|1>`
+Answer: `store=…|S0=<live|gone|unreg>:<view>:<events>|…|pubs=<in flight>|lock=<0|1>|ord=<0|1>`
 -/
 namespace ScVerif.C03
 open ScVerif.Line
 
-def parseF? (s : String) : Option (Option Int → Option Int) :=
-  if s.startsWith "s" then (parseInt? (s.drop 1).toString).map (fun k => fun _ => some k)
-  else if s.startsWith "a" then (parseInt? (s.drop 1).toString).map (fun k => fun old => some (old.getD 0 + k))
+abbrev V := Int × Int
+
+def parseVal? (s : String) : Option V :=
+  match s.splitOn "." with
+  | [l] => (parseInt? l).map (fun l => (l, 0))
+  | [l, t] => do
+    let l ← parseInt? l
+    let t ← parseInt? t
+    pure (l, t)
+  | _ => none
+
+def showVal (v : V) : String := if v.2 = 0 then toString v.1 else s!"{v.1}.{v.2}"
+
+def parseF? (s : String) : Option (Option V → Option V) :=
+  if s.startsWith "s" then (parseInt? (s.drop 1).toString).map (fun k => fun _ => some (k, 0))
+  else if s.startsWith "a" then
+    (parseInt? (s.drop 1).toString).map (fun k => fun old => some ((old.getD (0, 0)).1 + k, (old.getD (0, 0)).2))
+  else if s.startsWith "w" then (parseVal? (s.drop 1).toString).map (fun v => fun _ => some v)
   else if s.startsWith "c" then
     match ((s.drop 1).toString).splitOn "." with
     | [e, v] => do
       let e ← parseInt? e
       let v ← parseInt? v
-      pure (fun old => if old = some e then some v else none)
+      pure (fun old => if old = some (e, 0) then some (v, 0) else none)
     | _ => none
   else none
 
-def parseOp? (s : String) : Option (WOp Int) :=
+def parseOp? (s : String) : Option (WOp V) :=
   match s.splitOn "/" with
   | ["u", id, f] => do
     let id ← parseNat? id
@@ -39,54 +57,86 @@ def parseOp? (s : String) : Option (WOp Int) :=
     pure (.del id (fun _ => true))
   | _ => none
 
-def parseProg? (s : String) : Option (List (WOp Int)) :=
+def parseProg? (s : String) : Option (List (WOp V)) :=
   if s = "-" || s = "" then some [] else (s.splitOn ";").mapM parseOp?
 
-def parseInit? (s : String) : Option (List (Nat × Int)) :=
+def parseInit? (s : String) : Option (List (Nat × V)) :=
   if s = "-" || s = "" then some []
   else (s.splitOn ",").mapM (fun kv =>
     match kv.splitOn ":" with
     | [k, v] => do
       let k ← parseNat? k
-      let v ← parseInt? v
+      let v ← parseVal? v
       pure (k, v)
     | _ => none)
 
-def parseAct? (s : String) : Option Act :=
-  let n := parseNat? (s.drop 1).toString
-  if s.startsWith "c" then n.map .commit
-  else if s.startsWith "n" then n.map .snap
-  else if s.startsWith "d" then n.map .deliver
-  else if s.startsWith "s" then n.map .sub
+def parseMask? (c : Char) : Option (V → V) :=
+  if c = 'n' then some id
+  else if c = 'l' then some (fun v => (v.1, 0))
+  else if c = 't' then some (fun v => (0, v.2))
+  else if c = 'b' then some id
   else none
 
-def parseSched? (s : String) : Option (List Act) :=
-  if s = "-" || s = "" then some [] else (s.splitOn ",").mapM parseAct?
+def parseSub? (s : String) : Option (SubOpts V) :=
+  match s.toList with
+  | [u, l, m] => do
+    let u ← (if u = '1' then some true else if u = '0' then some false else none)
+    let l ← (if l = '1' then some true else if l = '0' then some false else none)
+    let m ← parseMask? m
+    pure ⟨u, l, m⟩
+  | _ => none
 
-def parseUo? (s : String) : Option (List Bool) :=
-  if s = "-" then some [] else s.toList.mapM (fun ch => if ch = '1' then some true else if ch = '0' then some false else none)
+def parseSubs? (s : String) : Option (List (SubOpts V)) :=
+  if s = "-" || s = "" then some [] else (s.splitOn ",").mapM parseSub?
 
-def showView (v : Nat → Option Int) : String :=
-  ",".intercalate ((List.range 10).filterMap (fun i => (v i).map (fun x => s!"{i}={x}")))
+inductive Tok
+  | act (a : Act)
+  | drainAll
 
-def showEv (e : Event Int) : String :=
+def parseTok? (s : String) : Option Tok :=
+  if s = "R" then some .drainAll else
+  let n := parseNat? (s.drop 1).toString
+  if s.startsWith "c" then n.map (fun n => .act (.commit n))
+  else if s.startsWith "n" then n.map (fun n => .act (.snap n))
+  else if s.startsWith "d" then n.map (fun n => .act (.deliver n))
+  else if s.startsWith "s" then n.map (fun n => .act (.sub n))
+  else if s.startsWith "x" then n.map (fun n => .act (.cancel n))
+  else if s.startsWith "r" then n.map (fun n => .act (.recv n))
+  else none
+
+def parseSched? (s : String) : Option (List Tok) :=
+  if s = "-" || s = "" then some [] else (s.splitOn ",").mapM parseTok?
+
+/-- `R`: every consumer drains its stage (one `recv` per pending event) -/
+def expand (nsubs : Nat) (c : Cfg V) : List Tok → List Act → Cfg V × List Act
+  | [], acc => (c, acc.reverse)
+  | .act a :: rest, acc => expand nsubs (step c a) rest (a :: acc)
+  | .drainAll :: rest, acc =>
+    let acts := (List.range nsubs).flatMap (fun s => List.replicate (c.subs s).pending.length (Act.recv s))
+    expand nsubs (run c acts) rest (acts.reverse ++ acc)
+
+def showView (v : Nat → Option V) : String :=
+  ",".intercalate ((List.range 10).filterMap (fun i => (v i).map (fun x => s!"{i}={showVal x}")))
+
+def showEv (m : V → V) (e : Event V) : String :=
   match e.new with
-  | some v => s!"{e.id}={v}"
+  | some v => s!"{e.id}={showVal (m v)}"
   | none => s!"{e.id}=nil"
 
 def handle (toks : List String) : String :=
   match toks with
-  | ["run", init, progs, uo, sched] =>
-    match parseInit? init, (progs.splitOn "|").mapM parseProg?, parseUo? uo, parseSched? sched with
-    | some init, some progs, some uo, some sched =>
-      let s₀ : Nat → Option Int := fun i => (init.find? (fun kv => kv.1 == i)).map (·.2)
-      let c₀ : Cfg Int := initCfg s₀ (fun t => progs.getD t []) (fun s => uo.getD s false)
-      let c := run c₀ sched
-      let subs := (List.range uo.length).map (fun s =>
+  | ["run", init, progs, subs, sched] =>
+    match parseInit? init, (progs.splitOn "|").mapM parseProg?, parseSubs? subs, parseSched? sched with
+    | some init, some progs, some subs, some sched =>
+      let s₀ : Nat → Option V := fun i => (init.find? (fun kv => kv.1 == i)).map (·.2)
+      let c₀ : Cfg V := initCfg s₀ (fun t => progs.getD t []) (fun s => subs.getD s ⟨false, false, id⟩)
+      let (c, acts) := expand subs.length c₀ sched []
+      let ss := (List.range subs.length).map (fun s =>
         let sb := c.subs s
-        s!"S{s}={showBool sb.registered}:{showView sb.view}:" ++ ";".intercalate (sb.evs.map showEv))
-      s!"store={showView c.store}|" ++ "|".intercalate subs ++
-        s!"|pubs={c.pubs.length}|lock={if c.lock.isSome then 1 else 0}|ord={if ordered c₀ sched then 1 else 0}"
+        let st := if sb.cancelled then "gone" else if sb.registered then "live" else "unreg"
+        s!"S{s}={st}:{showView sb.view}:" ++ ";".intercalate (sb.evs.map (showEv sb.mask)))
+      s!"store={showView c.store}|" ++ "|".intercalate ss ++
+        s!"|pubs={c.pubs.length}|lock={if c.lock.isSome then 1 else 0}|ord={if ordered c₀ acts then 1 else 0}"
     | _, _, _, _ => "!bad-op"
   | _ => "!bad-op"
 
